@@ -378,7 +378,7 @@ async def wide_responses(chk, rng, n):
         await a.finish()
 
 
-async def interrupted_streams(chk, rng, count):
+async def interrupted_streams(chk, rng, count, kill_only=False):
     """a response that is cut short while the client is not reading: the transport stops accepting data in the middle of a
     result set that is larger than the write buffer, the statement is ended from outside (KILL QUERY through the control, as
     a KILL statement of another connection does) or its row source fails, the client reads again.  Whatever was written
@@ -390,7 +390,7 @@ async def interrupted_streams(chk, rng, count):
     for i in range(count):
         nrows = rng.choice([3000, 5000, 9000])
         width = rng.choice([8, 20, 60])
-        fail_at = rng.choice([None, None, nrows // 2])
+        fail_at = rng.choice([None, None, nrows // 2]) if not kill_only else None
         asyncgen = rng.random() < 0.5
 
         def beh(sess, e, sql, attrs, nrows=nrows, width=width, fail_at=fail_at, asyncgen=asyncgen):
@@ -422,6 +422,12 @@ async def interrupted_streams(chk, rng, count):
         kill = fail_at is None or rng.random() < 0.3
         a.t.feed(pkt(0, com_stmt_execute(0, [], caps=caps) if binary else b"\x03select c from t"))
         await settle(rng.choice([30, 80, 200]))
+        for _ in range(rng.choice([0, 0, 1, 2, 3])):
+            # let the stream advance by some flushes before the kill: the cancellation lands at different awaits
+            a.t.unblock()
+            await settle(rng.choice([1, 2, 3, 5]))
+            a.t.block()
+            await settle(rng.choice([1, 3, 10]))
         if kill:
             await srv.control.kill(a.greeting["cid"], KillKind.QUERY)
             await settle(10)
@@ -490,7 +496,7 @@ def main():
         for k in range(6 if not chk.thorough else 100):
             await run_program(chk, rng, lines, impl, big=True)
         await wide_responses(chk, rng, 12 if not chk.thorough else 200)
-        await interrupted_streams(chk, rng, 10 if not chk.thorough else 150)
+        await interrupted_streams(chk, rng, 40 if not chk.thorough else 300)
 
     asyncio.run(go())
     reply_packets(chk, rng, 400 if not chk.thorough else 6000)
